@@ -2,7 +2,7 @@
 # Run the repository's pinned baseline (guard off) and re-run failures once, alone, to separate
 # load-induced flakiness from real regressions. Usage: tools/baseline.sh <logfile>
 LOG=${1:-/verif/build/baseline.log}
-cd /repo
+cd ${BASEDIR:-/repo}
 timeout 3000 cargo nextest run --workspace --no-fail-fast --tool-config-file pb:/w/lib/nextest.toml --profile pb --test-threads 8 --offline > "$LOG" 2>&1
 grep -E '^\s+(FAIL|SIGABRT|SIGSEGV|TIMEOUT)' "$LOG" | sed -E 's/.*\) //' | sort -u > "$LOG.failed"
 grep -E 'Summary' "$LOG" >> "$LOG.summary"
